@@ -111,6 +111,15 @@ def scenarios(rng: random.Random, tier: str):
         evs = ["rx 0 " + nodegen.ccr(n(), 7600, "peer1.x"), "ans 0 0 2001", "rx 0 " + nodegen.ccr(n(), 7600, "peer1.x"),
                "rx 0 " + nodegen.ccr(n(), 7600, "peer1.x", flags=208), "ans 0 1 2001", "rx 0 " + nodegen.ccr(n(), 7600, "peer1.x", flags=208)]
         out.insert(0, pre + " | " + " | ".join(evs))
+    # answers without a Result-Code (an application answering with an Experimental-Result only): the request has been
+    # answered all the same, its repeat is rejected
+    for rq in (1, 2, 4):
+        pre = cfg_line(rq) + " | start | acc | rx 0 " + nodegen.cer("peer1.x", "4", n(), n())
+        evs = ["rx 0 " + nodegen.ccr(n(), 7700, "peer1.x"), "ans 0 0 -", "rx 0 " + nodegen.ccr(n(), 7700, "peer1.x", flags=208),
+               "rx 0 " + nodegen.ccr(n(), 7701, "peer1.x", flags=208), "ans 0 1 -", "rx 0 " + nodegen.ccr(n(), 7701, "peer1.x", flags=208),
+               "rx 0 " + nodegen.ccr(n(), 7702, "peer1.x"), "ans 0 2 2001", "rx 0 " + nodegen.ccr(n(), 7701, "peer1.x", flags=208),
+               "rx 0 " + nodegen.ccr(n(), 7700, "peer1.x", flags=208)]
+        out.insert(0, pre + " | " + " | ".join(evs))
     # the node option that switches the validation of received requests off has nothing to do with repeats
     for rq in (1, 2, 4):
         pre = cfg_line(rq).replace("NODE ", "NODE noval=1;") + " | start | acc | rx 0 " + nodegen.cer("peer1.x", "4", n(), n())
